@@ -157,6 +157,14 @@ def run(tier: str, seed: int) -> int:
         vs = tlc.validate_traces(run_.wd, "Trace_Spec", specs, jvms=12, tag="final-spec", timeout=3000)
         run_.add_verdicts(vs, "Trace_Spec (specification returned after resumption: C01/C02 clauses)")
         run_.rejects(vs, {t["tid"]: t for t in specs}, lambda tr, r: "final-spec")
+    # model level: every time-slicing of the search loop (Search.tla) on universes extracted from real searches; the loop
+    # traces of those searches are validated step by step against the same specification
+    from .. import searchmodel
+
+    jobs, rejected, nmc = searchmodel.campaign(run_, tier, seed, want_mc=True)
+    for job, r in rejected:
+        run_.violation(r["clause"], "search-loop/" + job["sig"], {"reject": r, "trace": {"tid": job["tid"], "events": job["events"]}, "universe": job["universe"]})
+    run_.extra["universes_model_checked_for_all_slicings"] = nmc
     run_.rule = ("for each (start class, pack, flavour): every prefix length k of the expansion sequence (seeded subset in the quick "
                  "tier) x continuation in single-packet slices / one slice; non-trivial = fork after >= 1 packet with work left")
     run_.extra["forks"] = len(res)
